@@ -960,3 +960,87 @@ def phase_joinnames(ctx, phase):
     ctx.replay_stats["nontrivial"] = ctx.replay_stats.get("nontrivial", 0) + sum(1 for r in recs if set(r["c"]["l"]) & set(r["c"]["r"]))
     ctx.tlc_runs.append(dict(profile="join-names", states=0, distinct=0, configurations=len(recs), mode="TLC enumerates configurations, then judges the recorded outcomes"))
     return d
+
+
+def _verbnames_exec(args):
+    """worker: performs the single-verb calls of MC_VerbNames configurations on the real code (Polars, one row)"""
+    cols, cfgs = args
+    import polars as pl
+    import pydiverse.transform as pdt
+    from pydiverse.transform import drop, export, mutate, rename, select
+
+    out = []
+    for c in cfgs:
+        base = pdt.Table(pl.DataFrame({n: [i + 1] for i, n in enumerate(cols)}), name="t")
+        rec = dict(c=c, out=[], exp=[], err="")
+        try:
+            t = base >> select(*[base[n] for n in c["vis"]])       # the other columns are hidden
+            if c["verb"] == "rename":
+                r = t >> rename({k: v for k, v in c["map"]})
+            elif c["verb"] == "select":
+                r = t >> select(*[t[n] for n in c["args"]])
+            elif c["verb"] == "drop":
+                r = t >> drop(*[t[n] for n in c["args"]])
+            else:
+                first = t[c["vis"][0]]
+                r = t >> mutate(**{n: first + (i + 1) for i, n in enumerate(c["args"])})
+            rec["out"] = [col.name for col in r]
+            try:
+                rec["exp"] = list((r >> export(pdt.Polars())).columns)
+            except Exception as e:  # noqa: BLE001
+                rec["exp"] = ["!" + type(e).__name__]
+        except Exception as e:  # noqa: BLE001
+            rec["err"] = type(e).__name__
+            rec["msg"] = str(e)[:160].split("\n")[0]
+        out.append(rec)
+    return out
+
+
+def phase_verbnames(ctx, phase):
+    """names after rename / select / drop / mutate for EVERY argument over a small universe (MC_VerbNames.tla): TLC enumerates,
+    the code performs each call, TLC judges the recorded names, export names and error classes."""
+    cols = phase.get("cols", ["a", "b", "c", "x"])
+    keys = phase.get("keys", ["a", "b", "c", "z"])
+    vals = phase.get("vals", ["a", "b", "x", "y"])
+    d = tlc.prepare(f"{ctx.prop}-verbnames-{os.getpid()}", ctx.seed)
+    common = f"ColsDef == {tlc.tla_lit(cols)}\nKeysDef == {tlc.tla_lit(keys)}\nValsDef == {tlc.tla_lit(vals)}\n"
+
+    def write(mode):
+        with open(os.path.join(d, "Run.tla"), "w") as f:
+            f.write("---- MODULE Run ----\nEXTENDS MC_VerbNames\n" + common + "====\n")
+        with open(os.path.join(d, "Run.cfg"), "w") as f:
+            f.write(f'CONSTANTS\n  Mode = "{mode}"\n  Cols <- ColsDef\n  Keys <- KeysDef\n  Vals <- ValsDef\nINIT Init\nNEXT Next\nCHECK_DEADLOCK FALSE\n')
+
+    write("gen")
+    cfgs = []
+    tlc.run(d, workers=1, timeout=600, on_json=cfgs.append)
+    n = 16
+    futs = [ctx.get_pool().submit(_verbnames_exec, (cols, cfgs[w::n])) for w in range(n)]
+    recs = [r for fu in futs for r in fu.result()]
+    path = os.path.join(d, "verbnames.ndjson")
+    with open(path, "w") as f:
+        for r in recs:
+            f.write(json.dumps(dict(c=r["c"], out=r["out"], exp=r["exp"], err=r["err"])) + "\n")
+    write("check")
+    verdicts = []
+    tlc.run(d, workers=1, timeout=900, on_json=verdicts.append, extra_env=dict(VERIF_VERBNAMES=path))
+    if len(verdicts) != len(recs):
+        raise tlc.TlcError(f"MC_VerbNames judged {len(verdicts)} of {len(recs)} recorded calls")
+    counts = {}
+    for v in verdicts:
+        r = recs[v["i"] - 1]
+        c = r["c"]
+        counts.setdefault(c["verb"], {}).setdefault(v["verdict"], 0)
+        counts[c["verb"]][v["verdict"]] += 1
+        if v["verdict"] != "ok":
+            arg = dict(c["map"]) if c["verb"] == "rename" else c["args"]
+            ctx.failures.append(dict(clause="names", backend="polars", step=0, tainted=False, src=["names"], srcidx=0, exc=r["err"] or None,
+                                     detail=f"{c['verb']} names: {v['verdict']}: visible {c['vis']} (columns {cols}) {c['verb']}({arg}) -> "
+                                            f"names {r['out']} export {r['exp']} {r['err']} {r.get('msg', '')}",
+                                     moves=[dict(v=c["verb"], i=1)], heap_obs=[], beh=r))
+    ctx.extra["verb_names"] = dict(configurations=len(recs), verdicts=counts, universe=dict(columns=cols, rename_keys=keys, new_names=vals))
+    ctx.behaviours += len(recs)
+    ctx.replay_stats["steps_new"] = ctx.replay_stats.get("steps_new", 0) + len(recs)
+    ctx.replay_stats["nontrivial"] = ctx.replay_stats.get("nontrivial", 0) + len(recs)
+    ctx.tlc_runs.append(dict(profile="verb-names", states=0, distinct=0, configurations=len(recs), mode="TLC enumerates configurations, then judges the recorded outcomes"))
+    return d
